@@ -176,13 +176,13 @@ def build_pool(ctx, t):
         for g in ngrams(x):
             add(g, 'contract')
     sp = spec_texts(t['culture'])
-    if not ctx.thorough and len(sp) > 500:
-        sp = r.sample(sp, 500)
+    if not ctx.thorough and len(sp) > 300:
+        sp = r.sample(sp, 300)
     for x in sp:
         for g in (ngrams(x) if ctx.thorough else ngrams(x)[:4]):
             add(g, 'specs')
     alphabet = sorted(set(''.join(terms))) or ['a']
-    for _ in range(3000 if ctx.thorough else 400):
+    for _ in range(3000 if ctx.thorough else 250):
         n = r.randint(0, 12)
         s = ''.join(r.choice(SPECIALS) if r.random() < 0.15 else r.choice(alphabet) for _ in range(n))
         if r.random() < 0.4 and terms:
@@ -354,6 +354,110 @@ def unit(ctx):
     if lines:
         ctx.sample({'op': lines[len(lines) // 2], 'implementation': impl[len(lines) // 2]})
     return ts
+
+
+# ------------------------------------------------------------------ pipeline: the culture's own next / last / this words
+
+SWEEP_REFS = [dt.datetime(2020, 5, 20, 10, 0, 0), dt.datetime(2021, 1, 3, 0, 0, 0), dt.datetime(2020, 1, 31, 14, 30, 0),
+              dt.datetime(2019, 12, 30, 23, 59, 59), dt.datetime(2024, 2, 29, 0, 0, 0)]
+SWEEP_SOURCES = (('DateParserConfiguration._next_prefix_regex', 1), ('DateParserConfiguration._past_prefix_regex', -1),
+                 ('DatePeriodParserConfiguration.this_prefix_regex', 0))
+SWEEP_NOUNS = (('week', 'WeekTerms'), ('month', 'MonthTerms'), ('year', 'YearTerms'))
+
+
+def sweep_words(t):
+    """[(word, expected swift)]: bounded enumeration of the culture's NextPrefixRegex / PreviousPrefixRegex (as held by the
+    date parser configuration, i.e. the regexes the extractors are built from) and ThisPrefixRegex"""
+    from translate import regexes as rx
+    import re
+    out = []
+    for suffix, k in SWEEP_SOURCES:
+        for ref in sorted(t['regexes']):
+            if not ref.endswith(suffix):
+                continue
+            pat, flags, _ = t['regexes'][ref]
+            try:
+                ast_ = rx.parse(re.sub(r'\(\?P?<([A-Za-z_][A-Za-z0-9_]*)>', '(?:', pat), flags)
+            except Exception:
+                continue
+            for w in enum_regex(ast_, cap=80):
+                if w.strip() and 'ſ' not in w and 'ı' not in w:
+                    out.append((w, k))
+    seen, res = set(), []
+    for w, k in out:
+        if w not in seen:
+            seen.add(w)
+            res.append((w, k))
+    return res
+
+
+def pipeline_words(ctx, ts):
+    """'<next|last|this word> <week|month|year noun>' of every culture whose configuration holds the three prefix regexes,
+    through recognize_datetime.  The property (C08) states the period containing R shifted by +1 / -1 / 0.  Reported only
+    when the whole expression IS recognised as one date range and its value is the property's value for a DIFFERENT
+    shift (e.g. the culture's word for `last` resolves to the current week): signature `<last|next|this>-as-<…>-<culture>-<family>`."""
+    from lib import calcorr
+    r = ctx.rng('cultureconfig-words')
+    cases = []
+    for t in ts:
+        if t['dir'] == 'chinese':
+            continue
+        words = sweep_words(t)
+        nouns = []
+        for fam, lname in SWEEP_NOUNS:
+            for ref, items in sorted(t['lists'].items()):
+                if ref.endswith('DateTime.' + lname) and items:
+                    nouns.append((fam, items[0]))
+                    break
+        if not words or not nouns:
+            continue
+        if not ctx.thorough:          # quick: per shift the first 4 instances + 8 seeded ones, one seeded reference each
+            keep = []
+            for k in (1, -1, 0):
+                ws = [x for x in words if x[1] == k]
+                keep += ws[:4] + r.sample(ws[4:], min(8, len(ws[4:])))
+            words = keep
+        for w, k in words:
+            refs = SWEEP_REFS if ctx.thorough else [r.choice(SWEEP_REFS)]
+            for fam, noun in nouns:
+                for R in refs:
+                    cases.append(('%s %s' % (w, noun), R, fam, k, t['culture'], w))
+    if not cases:
+        return
+    results = calcorr.run_pipeline([((c[0], c[4]), c[1]) for c in cases])
+    name = {1: 'next', -1: 'last', 0: 'this'}
+    reported = {}
+    for (expr, R, fam, k, cul, w), res in zip(cases, results):
+        ctx.count('pipeline-words:%s:%s' % (cul, fam))
+        ent = calcorr.whole_entity(res, expr)
+        if not ent or ent[3].split('.')[-1] != 'daterange':
+            continue
+        got = [{kk: v for kk, v in x.items() if kk != 'Mod'} for x in ent[4]]
+        want = calcorr.c08_oracle(fam, k, R)
+        if got == want:
+            ctx.nontriv(('cc-words', cul, fam, expr, str(R)))
+            continue
+        other = [k2 for k2 in (-1, 0, 1) if k2 != k and got == calcorr.c08_oracle(fam, k2, R)]
+        if not other:
+            continue            # some other reading (rolling period, partial entity, …): not judged here
+        sig = '%s-as-%s-%s-%s' % (name[k], name[other[0]], cul, fam)
+        reported[sig] = reported.get(sig, 0) + 1
+        if reported[sig] > 3:
+            continue
+        ctx.report('property', sig,
+                   "%r (%s) at %s: got %r; '%s' is one of the culture's own %s-words (its %s regex), the property states %r" % (
+                       expr, cul, R, got, w, name[k], {1: 'NextPrefixRegex', -1: 'PreviousPrefixRegex', 0: 'ThisPrefixRegex'}[k], want),
+                   failing_input={'op': 'recognize_datetime', 'query': expr, 'culture': cul,
+                                  'reference': R.strftime('%Y-%m-%d %H:%M:%S'), 'family': fam, 'params': k,
+                                  'implementation': got, 'property_expects': want},
+                   property_fails=True)
+    ctx.extra['cultureconfig_word_sweep'] = {'cases': len(cases), 'signatures': reported}
+
+
+def run(ctx):
+    """called from corr/c08.py"""
+    ts = unit(ctx)
+    pipeline_words(ctx, ts)
 
 
 # ------------------------------------------------------------------ baseline of term values + search
